@@ -5,8 +5,10 @@ import json
 import os
 import random
 import re
+import shutil
 import subprocess
 import sys
+import tempfile
 import time
 
 HERE = os.path.dirname(os.path.abspath(__file__))
@@ -274,6 +276,53 @@ def run_stream(ctx, st, max_report=5):
         for i in idx[:6]:
             ctx.kernel_sample.append((ws[i], mdl[i]))
     return impl, mdl
+
+
+def failing_stdout_streams(ctx, what, cases, want=None):
+    """The verifiers print progress notes.  With a standard output on which every write fails (closed pipe, closed
+    file) a call may raise, but it must never ACCEPT what it rejects with a working output: soundness only."""
+    def rel(c, io, mo):
+        if impl_class(io) == "accept" and model_class(mo) != "accept":
+            return "accepted with a failing standard output, model says %s" % model_class(mo)
+        return None
+
+    def oracle(c, io):
+        if want is not None and io.startswith("O") and not want(c):
+            return "accepted with a failing standard output although the rule is not met"
+        return None
+    for kind in ("oserror", "closed"):
+        run_stream(ctx, Stream("%s, standard output failing on every write (%s): never accepts more" % (what, kind), cases, rel, oracle,
+                               nontrivial=lambda c, i, m: model_class(m) != "accept", env={"CCT_STDOUT": kind}))
+
+
+def history_independence(ctx, what, probes, seeds=(1, 2, 3), rounds=1):
+    """Probe calls must give the same outcome before and after every public entry point of every module of the
+    package has run in the same process (exercise_worker.py)."""
+    import subprocess
+    t = time.time()
+    n = 0
+    for seed in seeds:
+        d = tempfile.mkdtemp(prefix="cctex")
+        try:
+            spec, outp = os.path.join(d, "spec.json"), os.path.join(d, "out.json")
+            json.dump({"probes": probes, "seed": seed, "rounds": rounds}, open(spec, "w"))
+            p = subprocess.run([implrun.PY, os.path.join(HERE, "exercise_worker.py"), "--in", spec, "--out", outp],
+                               env=implrun.base_env(), cwd=d, capture_output=True, text=True, timeout=1800)
+            if not os.path.exists(outp):
+                raise RuntimeError("exercise worker failed: rc=%s %s" % (p.returncode, p.stderr[-1500:]))
+            r = json.load(open(outp))
+            n += len(r["log"])
+            for ch in r["changed"][:3]:
+                ctx.violations.append(("property", {"stream": what, "case": probes[ch["probe"]], "impl": ch["now"],
+                                                    "history": [a for a, _ in r["log"]][: [a for a, _ in r["log"]].index(ch["after"]) + 1], "seed": seed,
+                                                    "reason": "the outcome of this call changed after other functions of the package ran in the same process (after: %s): before %s, now %s"
+                                                              % (ch["after"], ch["before"][:120], ch["now"][:120])}))
+        finally:
+            shutil.rmtree(d, ignore_errors=True)
+    ctx.streams.append({"stream": what + ": %d probe calls repeated after each of %d actions exercising every module (builders, signers, key files, file load/store, repodata signing, every CLI subcommand, the interactive screen with scripted keystrokes), %d shuffled orders"
+                                  % (len(probes), n // max(1, len(seeds)), len(seeds)),
+                        "cases": len(probes) * n, "distinct_nontrivial": len(probes), "impl_outcomes": {}, "unmodelled": 0, "mismatches": 0,
+                        "oracle_violations": 0, "wall_s": round(time.time() - t, 2)})
 
 
 # ----------------------------------------------------------------------------- kernel path
